@@ -456,24 +456,30 @@ func (f *Func) reachTarget(
 		// reached, that value's name stays the preferred one: the converter's
 		// type-only inputs should be fed by the same-named value as well.
 		// A named input of such a converter adds its own name to the
-		// preferred ones, it does not replace them.
-		affinity := state.Affinity
+		// preferred ones, it does not replace them -- but its own name comes
+		// first: the inherited names get a smaller discount.
+		own := ""
 		if currentValue, ok := current.(*valueVertex); ok {
-			affinity = append(affinity[:len(affinity):len(affinity)], currentValue.Name)
+			own = currentValue.Name
 		}
-		if len(affinity) > 0 {
+		if own != "" || len(state.Affinity) > 0 {
 			currentG = currentG.Copy()
 			for _, raw := range currentG.Vertices() {
 				v, ok := raw.(*valueVertex)
 				if !ok {
 					continue
 				}
-				for _, name := range affinity {
-					if v.Name == name {
-						for _, src := range currentG.InEdges(raw) {
-							currentG.AddEdgeWeighted(src, raw, weightMatchingName)
-						}
-						break
+
+				weight, preferred := weightMatchingName, v.Name == own
+				if !preferred {
+					weight = weightInheritedName
+					for _, name := range state.Affinity {
+						preferred = preferred || v.Name == name
+					}
+				}
+				if preferred {
+					for _, src := range currentG.InEdges(raw) {
+						currentG.AddEdgeWeighted(src, raw, weight)
 					}
 				}
 			}
